@@ -33,6 +33,11 @@ const EQUAL_SPELLINGS: [&[&str]; 5] = [
     &["3nb1", "3.0nb1", "3nb01", "3pl0nb1", "3NB1"],
 ];
 
+fn digits() -> &'static Vec<String> {
+    static D: std::sync::OnceLock<Vec<String>> = std::sync::OnceLock::new();
+    D.get_or_init(|| gv::digits_and_separators(4))
+}
+
 fn version(r: &mut Rng) -> String {
     match r.below(6) {
         0 | 1 => {
@@ -375,6 +380,7 @@ pub fn run(cx: &mut Cx) {
     cx.ev.require("boundary-shift/pairs");
     cx.ev.require("lists/revision-cluster");
     cx.ev.require("lists/neighbours");
+    cx.ev.require("lists/digits-and-separators");
     cx.ev.require("aliased-slices/pairs");
     let n = cx.per_shard(30, 2_500, 96_000, 600_000);
     let mut r = cx.stream("lists");
@@ -386,8 +392,13 @@ pub fn run(cx: &mut Cx) {
         // ... or a family of related versions: near neighbours of one version
         // (one edit apart, so that a shortcut taken for "almost equal"
         // candidates is reached), or one stem with different tails behind "nb"
-        let mode = r.below(5);
+        let mode = r.below(6);
         let pool: Vec<String> = match mode {
+            5 => {
+                // digits and separators only, up to four tokens
+                let c = digits();
+                (0..4).map(|_| r.pick(c).clone()).collect()
+            }
             0 => {
                 let stem = if r.chance(1, 2) { format!("{}.{}", r.below(3), r.below(3)) } else { gv::v_safe(&mut r) };
                 let c = gv::revision_cluster(&stem);
@@ -405,11 +416,12 @@ pub fn run(cx: &mut Cx) {
         cx.ev.count(match mode {
             0 => "lists/revision-cluster",
             1 => "lists/neighbours",
+            5 => "lists/digits-and-separators",
             _ => "lists/independent",
         });
         for _ in 0..len {
             let b = *r.pick(bases);
-            let v = if mode < 2 || r.chance(2, 3) { r.pick(&pool).clone() } else { version(&mut r) };
+            let v = if mode < 2 || mode == 5 || r.chance(2, 3) { r.pick(&pool).clone() } else { version(&mut r) };
             names.push(match r.below(12) {
                 0 => b.to_string(), // no '-'
                 1 => format!("{b}{v}"),
